@@ -176,6 +176,15 @@ func C08(c *hx.Ctx) {
 	for k := 0; k < c.Pick(16, 64); k++ {
 		jobs = append(jobs, job{cfgs[[]int{2, 4, 5}[k%3]], histCase{Hist: []string{"W4Mr", "C"}, Expect: []string{"ok", "ok"}}, c.Seed + 7000 + int64(k)})
 	}
+	// distance ladder: a repeat in every distance slot up to a 32 MiB dictionary, with a Flush between
+	// the two halves (the second half's matches reach back across the flushed prefix); runs cut at the
+	// maximum match length for every configuration
+	jobs = append(jobs, job{W2Cfg{3, 0, 2, 1 << 25, 4096, 0}, histCase{Hist: []string{"WLad32M", "F", "W4K", "C"}, Expect: []string{"ok", "ok", "ok", "ok"}}, c.Seed + 8000})
+	jobs = append(jobs, job{W2Cfg{3, 0, 2, 1 << 24, 4096, 0}, histCase{Hist: []string{"W4K", "F", "WLad16M", "C"}, Expect: []string{"ok", "ok", "ok", "ok"}}, c.Seed + 8001})
+	jobs = append(jobs, job{W2Cfg{0, 2, 0, 65536, 4096, 1}, histCase{Hist: []string{"WLad64Kt", "F", "WLad64Kt", "C"}, Expect: []string{"ok", "ok", "ok", "ok"}}, c.Seed + 8002})
+	for k, g := range cfgs {
+		jobs = append(jobs, job{g, histCase{Hist: []string{"WMaxRuns", "F", "WMaxRuns", "C"}, Expect: []string{"ok", "ok", "ok", "ok"}}, c.Seed + 8100 + int64(k)})
+	}
 	c.Logf("%d small histories, %d big histories, %d jobs", len(hs), len(hb), len(jobs))
 	var mu sync.Mutex
 	var tr bytes.Buffer
